@@ -315,7 +315,7 @@ def small_terms(size):
                 yield "let X := %s; %s X" % (a, b)
 
 
-def exhaustive(max_size, prefixes=("", "(1, 2)")):
+def exhaustive(max_size, prefixes=('"a" 2', "(1, 2) 3")):
     seen = set()
     for n in range(1, max_size + 1):
         for t in small_terms(n):
